@@ -98,6 +98,14 @@ Theorem C03_positions_denote_labels : forall St Out active ms (b : branch St Out
 Proof. exact positions_denote_labels. Qed.
 Print Assumptions C03_positions_denote_labels.
 
+(* the repaired executor validates before any evolution: _validate_active_modes accepts
+   exactly the programs that pass the loop's own active-mode test at every instruction, so an
+   invalid program is refused up front and a validated one is never refused mid-run *)
+Theorem C03_validate_active_agrees : forall Ins modes_of is_meas (prog : list Ins) active,
+  validate_active Ins modes_of is_meas prog active = loop_checks Ins modes_of is_meas prog active.
+Proof. exact validate_active_agrees. Qed.
+Print Assumptions C03_validate_active_agrees.
+
 (* the two shapes of oracle answer the simulators produce are well formed *)
 Theorem C03_binning_wf : forall Out key_eqb (samples : list (list Out)) k,
   Z.of_nat (length samples) = k -> counts_ok k (map snd (binning_freqs Out key_eqb samples k)).
